@@ -243,8 +243,30 @@ def warm_specs(tier):
     return [("c07", [p for (_k, _s, _v, p) in all_items()])]
 
 
+def mixed_programs():
+    """Two spellings that name the same register differently (plain / .new) or different registers with similar names,
+    in one behaviour and in both orders: each must keep its own binding."""
+    pairs = []
+    for t, l in (("P", "v"), ("P", "u"), ("R", "s"), ("R", "t"), ("R", "x")):
+        if not (t == "R" and l == "x"):
+            pairs.append((t + l + "V", t + l + "N"))
+    pairs += [("P0", "P0_NEW"), ("P3", "P3_NEW"), ("R0", "R0_NEW"), ("R31", "R31_NEW"), ("HEX_REG_ALIAS_LR", "HEX_REG_ALIAS_LR_NEW"), ("HEX_REG_ALIAS_USR", "HEX_REG_ALIAS_USR_NEW"),
+              ("RsV", "RttV"), ("PuV", "RvV"), ("R1", "R11"), ("R1", "P1"), ("R3", "C3"), ("R1:0", "R1"), ("HEX_REG_ALIAS_SA0", "HEX_REG_ALIAS_SA1"), ("HEX_REG_ALIAS_LC0", "HEX_REG_ALIAS_LR"),
+              ("siV", "SiV"), ("uiV", "UiV"), ("riV", "RsV")]
+    r = [("int64_t", "res", "local"), ("int64_t", "res2", "local")]
+    out = []
+    for a, b in pairs:
+        for x, y in ((a, b), (b, a)):
+            out.append(P(r, "res = %s; res2 = %s;" % (x, y), ["res", "res2"], tag=("mix", x, y, "seq")))
+            out.append(P(r, "res = %s + %s;" % (x, y), ["res"], tag=("mix", x, y, "sum")))
+            out.append(P(r, "if (%s) { res = %s; } else { res2 = %s; }" % (x, y, x), ["res", "res2"], tag=("mix", x, y, "if")))
+    return out
+
+
 def all_items():
     items = []
+    for spec in mixed_programs():
+        items.append(("mix", "%s,%s" % (spec.tag[1], spec.tag[2]), spec.tag[3], spec))
     for kind, sp in spellings():
         for variant, spec in programs(kind, sp):
             items.append((kind, sp, variant, spec))
